@@ -12,8 +12,8 @@ Clips == {NoClip, ClipOf(<<<<0, 0, 2, 1>>>>), ClipOf(<<<<0, 0, 1, 2>>, <<2, 0, 3
           ClipOf(<<>>)}
 SrcClips == {NoClip, ClipOf(<<<<0, 0, 1, 2>>>>), ClipOf(<<<<0, 0, 2, 1>>, <<1, 1, 2, 2>>>>)}
 
-Src(c, on) == [w |-> 2, h |-> 2, px |-> <<<<255, 10, 20, 30>>, <<128, 100, 0, 128>>, <<0, 0, 0, 0>>, <<64, 64, 1, 2>>>>, clip |-> c, srcclip |-> on]
-Dst(c) == [w |-> 3, h |-> 2, px |-> [i \in 1..6 |-> <<40 * i, 7 * i, 255 - i, i>>], clip |-> c, srcclip |-> FALSE]
+Src(c, on) == [Bits("a8r8g8b8", 2, 2, <<<<255, 10, 20, 30>>, <<128, 100, 0, 128>>, <<0, 0, 0, 0>>, <<64, 64, 1, 2>>>>) EXCEPT !.clip = c, !.srcclip = on]
+Dst(c) == [Bits("a8r8g8b8", 3, 2, [i \in 1..6 |-> <<40 * i, 7 * i, 255 - i, i>>]) EXCEPT !.clip = c]
 
 Init == k \in 0..12 /\ done = FALSE /\ reg = <<>> /\ img = <<>>
 Next == done = FALSE /\ done' = TRUE /\ UNCHANGED <<k, reg, img>>
@@ -26,7 +26,7 @@ PointwiseOK ==
     done =>
     \A dc \in Clips, sc \in SrcClips, on \in BOOLEAN, sx \in -1..1, sy \in 0..1, dx \in -1..1, dy \in 0..1, w \in 0..3, h \in 1..2 :
         LET s == Src(sc, on)  d == Dst(dc)
-            res == CompositeResult(k, s, d, sx, sy, dx, dy, w, h)
+            res == CompositeResult(k, s, NoImage, d, sx, sy, 0, 0, dx, dy, w, h)
         IN  \A i \in 1..6 :
               LET x == (i - 1) % 3   y == (i - 1) \div 3
                   inside == /\ dx <= x /\ x < dx + w /\ dy <= y /\ y < dy + h
